@@ -48,7 +48,7 @@ def decoder_subjects(ctx, quick):
     from harness.pydrv import c06corpus, lz
     rng = ctx.rng
     S = []
-    S += c06corpus.xz_subjects(rng, quick, 3 if quick else 40, 14 if quick else 300)
+    S += c06corpus.xz_subjects(rng, quick, 3 if quick else 20, 14 if quick else 150)
     S += c06corpus.tests_files(rng, quick)
     S += c06corpus.lzma1_subjects(rng, quick, 2 if quick else 12)
     S += c06corpus.microlzma_subjects(rng, quick, 2 if quick else 10)
@@ -107,7 +107,7 @@ def judge_parses(ctx, parses, results, crashes):
         if c["kind"] != "parse":
             continue
         p = byid[c["id"]]
-        key = "%s:%s:%s" % ("hang" if c["rc"] == "timeout" else "crash", p["entry"], ":".join(p["cls"].split(":")[:2]))
+        key = "%s:%s:%s" % ("hang" if c["rc"] in ("timeout", -14) else "crash", p["entry"], ":".join(p["cls"].split(":")[:2]))
         if key not in seen:
             seen.add(key)
             ctx.violation(key, S6.asan_summary(c["log"]) + "\n" + c["log"][-2500:], dict(kind="parse", call=p))
@@ -193,8 +193,7 @@ def run(ctx):
         s["plans"] = c04_plans(s, ctx, sym, quick)
     ctx.log("grammar items: %s; %d parser calls; %d decoder subjects" % ({w: len(items[w]) for w in GRAMMARS}, len(parses), len(S)))
     S.sort(key=lambda s: -len(s["data"]) * (3 if s["entry"].endswith("_mt") else 1))
-    results, crashes = S6.run_jobs(ctx, S, (), parses, nproc=4 if quick else 6, rec_budget=16000 if quick else 200000,
-                                   timeout=280 if quick else 1500)
+    results, crashes = S6.run_jobs(ctx, S, (), parses, nproc=4 if quick else 6, rec_budget=16000 if quick else 200000)
     # observed clauses + recorded histories; slicing mismatches are C06's business: not judged here
     for r in results:
         if r["kind"] == "subject":
